@@ -203,13 +203,15 @@ inline void check_chain(Chain const& c, int narrowest_digits, Inputs const& in, 
         }
     });
     std::size_t const completed = tr.nodes.size();
+    for (std::size_t i = 0; i < ex.size() && o.region.empty(); ++i)
+        if (!ex[i].cause.empty()) o.region = "node(" + std::string(i < c.nodes.size() ? kind_name(c.nodes[i].kind) : "?") + ")/" + ex[i].cause;
     auto where = [&](std::size_t i) { return "node(" + std::string(i < c.nodes.size() ? kind_name(c.nodes[i].kind) : "?") + ")/" + (i < ex.size() ? ex[i].cause : std::string()); };
     if (!ok) {
         if (tmp.fclass == "abort:positive overflow" || tmp.fclass == "abort:negative overflow") {
             signal = tmp.fclass == "abort:positive overflow" ? 1 : -1;
             how = "abort";
         } else {
-            o = tmp;
+            o.take_failure(tmp);
             o.fclass = where(completed) + o.fclass;
             o.msg += " at node " + std::to_string(completed);
             return;
